@@ -167,6 +167,7 @@ class StmtMixin(object):
     if s.decorator_list:
       raise Unsupported('decorated nested function')
     f = VFunc(s, st.env, self.cur_mod, s.name)
+    f.home_depth = self.inline_depth
     st.env[s.name] = f
     # closures capture the environment by reference: share the dict so later writes are seen
     f.env = st.env
@@ -387,7 +388,12 @@ class StmtMixin(object):
       st.env[name] = nv
 
   def st_Try(self, s, st):
-    for kind, st1, v in list(self.exec_block(s.body, st)):
+    self.try_depth += 1
+    try:
+      body_outs = list(self.exec_block(s.body, st))
+    finally:
+      self.try_depth -= 1
+    for kind, st1, v in body_outs:
       if kind == 'raise':
         handled = False
         for h in s.handlers:
@@ -481,7 +487,12 @@ class StmtMixin(object):
           if k0 != 'normal':
             yield k0, st3, v0
             continue
-          for kind, st4, v in list(self.exec_block(s.body, st3)):
+          self.try_depth += 1
+          try:
+            with_outs = list(self.exec_block(s.body, st3))
+          finally:
+            self.try_depth -= 1
+          for kind, st4, v in with_outs:
             yield from self._with_exit(cm, kind, st4, v)
 
   def _with_exit(self, cm, kind, st, v):
